@@ -211,8 +211,6 @@ def check_case(case, obs):
     sys, pop = case["sys"], case["pop"]
     if not rules.is_ranked(sys):
         return None
-    if any(v["unit"] == "eternity" and v["formulas"] for v in sys["vars"]):
-        return None
     reqs = case["requests"]
     seen_calc = False
     inputs = {}
